@@ -1239,4 +1239,881 @@ theorem mac_foreign (ver : Dec) (f : Nat) (m : Macro) (fr : Foreign) (T : List T
       have : T.length < T.length + 1 + 1 + 1 + 1 + 1 + 1 := by omega
       simp [this]
 
+theorem mac_origin (ver : Dec) (f : Nat) (m : Macro) (p : Pt) (T : List Tok) (h : ptOk p = true) :
+    macroBody ver (f + 1) m (kw "Origin" :: (wPt p ++ semiTok :: T)) = macroBody ver f { m with origin := some p } T := by
+  generalize hts : kw "Origin" :: (wPt p ++ semiTok :: T) = ts
+  have hpk : peekKey ts = some "Origin" := by subst hts; exact peekKey_kw _ _ k_Origin
+  have htl : ts.tail = wPt p ++ semiTok :: T := by subst hts; rfl
+  have hl : T.length < ts.length := by subst hts; simp; omega
+  rw [macroBody]; simp [hpk, htl, point_wPt p _ h, semi_semiTok, hl]
+
+theorem mac_source (ver : Dec) (f : Nat) (m : Macro) (e : String) (T : List Tok) (h : isVariant "LefDefSource" e = true)
+    (hv : v5p4.lt ver = false) :
+    macroBody ver (f + 1) m (kw "Source" :: en "LefDefSource" e :: semiTok :: T) = macroBody ver f { m with source := some e } T := by
+  generalize hts : kw "Source" :: en "LefDefSource" e :: semiTok :: T = ts
+  have hpk : peekKey ts = some "Source" := by subst hts; exact peekKey_kw _ _ k_Source
+  have htl : ts.tail = en "LefDefSource" e :: semiTok :: T := by subst hts; rfl
+  have hl : T.length < ts.length := by subst hts; simp; omega
+  rw [macroBody]; simp [hpk, htl, hv, parseEnum_en "LefDefSource" e _ t_DefSource h, semi_semiTok, hl]
+
+theorem mac_eeq (ver : Dec) (f : Nat) (m : Macro) (v : Str) (T : List Tok) :
+    macroBody ver (f + 1) m (kw "Eeq" :: ident v :: semiTok :: T) = macroBody ver f { m with eeq := some v } T := by
+  generalize hts : kw "Eeq" :: ident v :: semiTok :: T = ts
+  have hpk : peekKey ts = some "Eeq" := by subst hts; exact peekKey_kw _ _ k_Eeq
+  have htl : ts.tail = ident v :: semiTok :: T := by subst hts; rfl
+  have hl : T.length < ts.length := by subst hts; simp; omega
+  rw [macroBody]; simp [hpk, htl, getName_ident, semi_semiTok, hl]
+
+theorem mac_site (ver : Dec) (f : Nat) (m : Macro) (v : Str) (T : List Tok) :
+    macroBody ver (f + 1) m (kw "Site" :: ident v :: semiTok :: T) = macroBody ver f { m with site := some v } T := by
+  generalize hts : kw "Site" :: ident v :: semiTok :: T = ts
+  have hpk : peekKey ts = some "Site" := by subst hts; exact peekKey_kw _ _ k_Site
+  have htl : ts.tail = ident v :: semiTok :: T := by subst hts; rfl
+  have hl : T.length < ts.length := by subst hts; simp; omega
+  rw [macroBody]; simp [hpk, htl, getName_ident, semi_semiTok, hl]
+
+theorem mac_size (ver : Dec) (f : Nat) (m : Macro) (sz : Dec × Dec) (T : List Tok) (ha : decOk sz.1 = true) (hb : decOk sz.2 = true) :
+    macroBody ver (f + 1) m (kw "Size" :: num sz.1 :: kw "By" :: num sz.2 :: semiTok :: T) = macroBody ver f { m with size := some sz } T := by
+  have hs := sizeStmt_w sz.1 sz.2 T ha hb
+  generalize hts : kw "Size" :: num sz.1 :: kw "By" :: num sz.2 :: semiTok :: T = ts at hs
+  have hpk : peekKey ts = some "Size" := by subst hts; exact peekKey_kw _ _ k_Size
+  have hl : T.length < ts.length := by subst hts; simp; omega
+  rw [macroBody]; simp [hpk, hs, hl]
+
+theorem mac_symmetry (ver : Dec) (f : Nat) (m : Macro) (ss : List String) (T : List Tok) (h : ss.all (isVariant "LefSymmetry") = true) :
+    macroBody ver (f + 1) m (wSymmetry ss ++ T) = macroBody ver f { m with symmetry := some ss } T := by
+  have heq : wSymmetry ss ++ T = kw "Symmetry" :: (ss.map (en "LefSymmetry") ++ semiTok :: T) := by simp [wSymmetry]
+  rw [heq]
+  generalize hts : kw "Symmetry" :: (ss.map (en "LefSymmetry") ++ semiTok :: T) = ts
+  have hpk : peekKey ts = some "Symmetry" := by subst hts; exact peekKey_kw _ _ k_Symmetry
+  have htl : ts.tail = ss.map (en "LefSymmetry") ++ semiTok :: T := by subst hts; rfl
+  have hl : T.length < ts.length := by subst hts; simp; omega
+  have hlen : ss.length + 1 ≤ ts.length + 1 := by subst hts; simp; omega
+  have hs := symmetries_w T ss [] (ts.length + 1) hlen h
+  rw [macroBody]; simp [hpk, htl, hs, hl]
+
+theorem mac_obs (ver : Dec) (f : Nat) (m : Macro) (ls : List LayerGeoms) (T : List Tok) (h : ls.all lgOk = true) :
+    macroBody ver (f + 1) m (kw "Obs" :: (ls.flatMap wLayerGeoms ++ kw "End" :: T)) = macroBody ver f { m with obs := ls } T := by
+  generalize hts : kw "Obs" :: (ls.flatMap wLayerGeoms ++ kw "End" :: T) = ts
+  have hpk : peekKey ts = some "Obs" := by subst hts; exact peekKey_kw _ _ k_Obs
+  have htl : ts.tail = ls.flatMap wLayerGeoms ++ kw "End" :: T := by subst hts; rfl
+  have hl : T.length < ts.length := by subst hts; simp; omega
+  have hlen : ls.length + 1 ≤ ts.length + 1 := by
+    subst hts; have := flatMap_wLayerGeoms_length ls; simp only [List.length_cons, List.length_append]; omega
+  have hs := obsBody_w T ls [] (ts.length + 1) hlen h
+  rw [macroBody]; simp [hpk, htl, hs, hl]
+
+theorem flatMap_wDensityLayer_length (ls : List DensityGeoms) : ls.length ≤ (ls.flatMap wDensityLayer).length := by
+  induction ls with
+  | nil => simp
+  | cons a r ih =>
+    have : 1 ≤ (wDensityLayer a).length := by simp [wDensityLayer]
+    simp only [List.flatMap_cons, List.length_append, List.length_cons]; omega
+
+theorem mac_density (ver : Dec) (f : Nat) (m : Macro) (ls : List DensityGeoms) (T : List Tok) (h : ls.all dlOk = true) :
+    macroBody ver (f + 1) m (kw "Density" :: (ls.flatMap wDensityLayer ++ kw "End" :: T)) = macroBody ver f { m with density := some ls } T := by
+  generalize hts : kw "Density" :: (ls.flatMap wDensityLayer ++ kw "End" :: T) = ts
+  have hpk : peekKey ts = some "Density" := by subst hts; exact peekKey_kw _ _ k_Density
+  have htl : ts.tail = ls.flatMap wDensityLayer ++ kw "End" :: T := by subst hts; rfl
+  have hl : T.length < ts.length := by subst hts; simp; omega
+  have hlen : ls.length + 1 ≤ ts.length + 1 := by
+    subst hts; have := flatMap_wDensityLayer_length ls; simp only [List.length_cons, List.length_append]; omega
+  have hs := densityBody_w T ls [] (ts.length + 1) hlen h
+  rw [macroBody]; simp [hpk, htl, hs, hl]
+
+theorem mac_end (ver : Dec) (f : Nat) (m : Macro) (T : List Tok) : macroBody ver (f + 1) m (kw "End" :: T) = some (m, T) := by
+  rw [macroBody]; simp [peekKey_kw "End" _ k_End]
+
+theorem mac_pins (ver : Dec) (T : List Tok) : ∀ (ps : List Pin) (m : Macro) (f : Nat), ps.length ≤ f → ps.all pinOk = true →
+    macroBody ver f m (ps.flatMap wPin ++ T) = macroBody ver (f - ps.length) { m with pins := m.pins ++ ps } T := by
+  intro ps
+  induction ps with
+  | nil => intro m f _ _; simp
+  | cons pn r ih =>
+    intro m f hf hok
+    obtain ⟨n, rfl⟩ : ∃ n, f = n + 1 := ⟨f - 1, by simp at hf; omega⟩
+    simp only [List.all_cons, Bool.and_eq_true] at hok
+    simp only [List.flatMap_cons, List.append_assoc]
+    have hp := pin_w pn (r.flatMap wPin ++ T) hok.1
+    have hpk : peekKey (wPin pn ++ (r.flatMap wPin ++ T)) = some "Pin" := by
+      rw [wPin_eq]; exact peekKey_kw _ _ k_Pin
+    have hl : (r.flatMap wPin ++ T).length < (wPin pn ++ (r.flatMap wPin ++ T)).length := by
+      rw [wPin_eq]; simp only [List.length_append, List.length_cons, List.cons_append]; omega
+    generalize hR : r.flatMap wPin ++ T = R at hp hpk hl
+    generalize wPin pn ++ R = ts at hp hpk hl
+    rw [macroBody]; simp [hpk, hp, hl]
+    subst hR
+    rw [ih _ n (by simp at hf; omega) hok.2]
+    simp [Nat.add_sub_add_right]
+
+theorem mac_props (ver : Dec) (T : List Tok) : ∀ (ps : List Prop') (m : Macro) (f : Nat), ps.length ≤ f →
+    macroBody ver f m (ps.flatMap wProp ++ T) = macroBody ver (f - ps.length) { m with properties := m.properties ++ ps } T := by
+  intro ps
+  induction ps with
+  | nil => intro m f _; simp
+  | cons pr r ih =>
+    intro m f hf
+    obtain ⟨n, rfl⟩ : ∃ n, f = n + 1 := ⟨f - 1, by simp at hf; omega⟩
+    simp only [List.flatMap_cons, List.append_assoc]
+    have hp := property_w m.properties pr (r.flatMap wProp ++ T)
+    have hpk : peekKey (wProp pr ++ (r.flatMap wProp ++ T)) = some "Property" := by
+      simp only [wProp, List.cons_append]; exact peekKey_kw _ _ k_Property
+    have hl : (r.flatMap wProp ++ T).length < (wProp pr ++ (r.flatMap wProp ++ T)).length := by
+      simp only [wProp, List.length_append, List.length_cons, List.length_nil]; omega
+    generalize hR : r.flatMap wProp ++ T = R at hp hpk hl
+    generalize wProp pr ++ R = ts at hp hpk hl
+    rw [macroBody]; simp [hpk, hp, hl]
+    subst hR
+    rw [ih _ n (by simp at hf; omega)]
+    simp [Nat.add_sub_add_right]
+
+/-! optional macro statements -/
+theorem mac_opt_cls (ver : Dec) (f : Nat) (m : Macro) (o : Option (String × Option String × Bool)) (T : List Tok) (hp : m.cls = none)
+    (h : optOk o classOk = true) :
+    macroBody ver (f + st o) m (opt o wMacroClass ++ T) = macroBody ver f { m with cls := o } T := by
+  cases o with
+  | none => cases m; simp only at hp; subst hp; simp [st, opt]
+  | some d => simpa [st, opt] using mac_class ver f m d T h
+theorem mac_opt_fixedmask (ver : Dec) (f : Nat) (m : Macro) (b : Bool) (T : List Tok) (hp : m.fixedMask = false) :
+    macroBody ver (f + (if b then 1 else 0)) m ((if b then [kw "FixedMask", semiTok] else []) ++ T) = macroBody ver f { m with fixedMask := b } T := by
+  cases b with
+  | false => cases m; simp only at hp; subst hp; simp
+  | true => simpa using mac_fixedmask ver f m T
+theorem mac_opt_foreign (ver : Dec) (f : Nat) (m : Macro) (o : Option Foreign) (T : List Tok) (hp : m.foreign = none)
+    (h : optOk o foreignOk = true) :
+    macroBody ver (f + st o) m (opt o wForeign ++ T) = macroBody ver f { m with foreign := o } T := by
+  cases o with
+  | none => cases m; simp only at hp; subst hp; simp [st, opt]
+  | some d => simpa [st, opt] using mac_foreign ver f m d T h
+def wOrigin (p : Pt) : List Tok := [kw "Origin"] ++ wPt p ++ [semiTok]
+theorem wOrigin_def : wOrigin = fun p => [kw "Origin"] ++ wPt p ++ [semiTok] := rfl
+theorem wForeign_def : wForeign = fun f => [kw "Foreign", ident f.cell] ++ opt f.pt wPt ++ opt f.orient (fun o => [en "LefOrient" o]) ++ [semiTok] := rfl
+theorem mac_opt_origin (ver : Dec) (f : Nat) (m : Macro) (o : Option Pt) (T : List Tok) (hp : m.origin = none)
+    (h : optOk o ptOk = true) :
+    macroBody ver (f + st o) m (opt o wOrigin ++ T) = macroBody ver f { m with origin := o } T := by
+  cases o with
+  | none => cases m; simp only at hp; subst hp; simp [st, opt]
+  | some d => simpa [st, opt, wOrigin] using mac_origin ver f m d T h
+theorem mac_opt_source (ver : Dec) (f : Nat) (m : Macro) (o : Option String) (T : List Tok) (hp : m.source = none)
+    (h : optOk o (isVariant "LefDefSource") = true) (hv : o.isSome = true → v5p4.lt ver = false) :
+    macroBody ver (f + st o) m (opt o (fun s => [kw "Source", en "LefDefSource" s, semiTok]) ++ T) = macroBody ver f { m with source := o } T := by
+  cases o with
+  | none => cases m; simp only at hp; subst hp; simp [st, opt]
+  | some d => simpa [st, opt] using mac_source ver f m d T h (hv rfl)
+theorem mac_opt_eeq (ver : Dec) (f : Nat) (m : Macro) (o : Option Str) (T : List Tok) (hp : m.eeq = none) :
+    macroBody ver (f + st o) m (opt o (fun c => [kw "Eeq", ident c, semiTok]) ++ T) = macroBody ver f { m with eeq := o } T := by
+  cases o with
+  | none => cases m; simp only at hp; subst hp; simp [st, opt]
+  | some d => simpa [st, opt] using mac_eeq ver f m d T
+theorem mac_opt_site (ver : Dec) (f : Nat) (m : Macro) (o : Option Str) (T : List Tok) (hp : m.site = none) :
+    macroBody ver (f + st o) m (opt o (fun c => [kw "Site", ident c, semiTok]) ++ T) = macroBody ver f { m with site := o } T := by
+  cases o with
+  | none => cases m; simp only at hp; subst hp; simp [st, opt]
+  | some d => simpa [st, opt] using mac_site ver f m d T
+def sizeOk (s : Dec × Dec) : Bool := decOk s.1 && decOk s.2
+theorem mac_opt_size (ver : Dec) (f : Nat) (m : Macro) (o : Option (Dec × Dec)) (T : List Tok) (hp : m.size = none)
+    (h : optOk o sizeOk = true) :
+    macroBody ver (f + st o) m (opt o (fun s => [kw "Size", num s.1, kw "By", num s.2, semiTok]) ++ T) = macroBody ver f { m with size := o } T := by
+  cases o with
+  | none => cases m; simp only at hp; subst hp; simp [st, opt]
+  | some d =>
+    simp only [optOk, sizeOk, Bool.and_eq_true] at h
+    simpa [st, opt] using mac_size ver f m d T h.1 h.2
+def symOk (ss : List String) : Bool := ss.all (isVariant "LefSymmetry")
+theorem mac_opt_symmetry (ver : Dec) (f : Nat) (m : Macro) (o : Option (List String)) (T : List Tok) (hp : m.symmetry = none)
+    (h : optOk o symOk = true) :
+    macroBody ver (f + st o) m (opt o wSymmetry ++ T) = macroBody ver f { m with symmetry := o } T := by
+  cases o with
+  | none => cases m; simp only at hp; subst hp; simp [st, opt]
+  | some d => simpa [st, opt] using mac_symmetry ver f m d T h
+def densOk (ls : List DensityGeoms) : Bool := ls.all dlOk
+def wDensity' (d : List DensityGeoms) : List Tok := [kw "Density"] ++ d.flatMap wDensityLayer ++ [kw "End"]
+theorem wDensity_eq (d : List DensityGeoms) : wDensity d = wDensity' d := rfl
+theorem mac_opt_density (ver : Dec) (f : Nat) (m : Macro) (o : Option (List DensityGeoms)) (T : List Tok) (hp : m.density = none)
+    (h : optOk o densOk = true) :
+    macroBody ver (f + st o) m (opt o wDensity' ++ T) = macroBody ver f { m with density := o } T := by
+  cases o with
+  | none => cases m; simp only at hp; subst hp; simp [st, opt]
+  | some d => simpa [st, opt, wDensity'] using mac_density ver f m d T h
+def wObs (ls : List LayerGeoms) : List Tok := if ls.isEmpty then [] else [kw "Obs"] ++ ls.flatMap wLayerGeoms ++ [kw "End"]
+def stl {α : Type} (l : List α) : Nat := if l.isEmpty then 0 else 1
+theorem mac_opt_obs (ver : Dec) (f : Nat) (m : Macro) (ls : List LayerGeoms) (T : List Tok) (hp : m.obs = [])
+    (h : ls.all lgOk = true) :
+    macroBody ver (f + stl ls) m (wObs ls ++ T) = macroBody ver f { m with obs := ls } T := by
+  cases ls with
+  | nil => cases m; simp only at hp; subst hp; simp [stl, wObs]
+  | cons a r => simpa [stl, wObs] using mac_obs ver f m (a :: r) T h
+theorem mac_pins' (ver : Dec) (T : List Tok) (ps : List Pin) (m : Macro) (f : Nat) (h : ps.all pinOk = true) :
+    macroBody ver (f + ps.length) m (ps.flatMap wPin ++ T) = macroBody ver f { m with pins := m.pins ++ ps } T := by
+  rw [mac_pins ver T ps m _ (by omega) h]; simp
+theorem mac_props' (ver : Dec) (T : List Tok) (ps : List Prop') (m : Macro) (f : Nat) :
+    macroBody ver (f + ps.length) m (ps.flatMap wProp ++ T) = macroBody ver f { m with properties := m.properties ++ ps } T := by
+  rw [mac_props ver T ps m _ (by omega)]; simp
+
+def macroOk (m : Macro) : Bool :=
+  optOk m.cls classOk && optOk m.foreign foreignOk && optOk m.origin ptOk && optOk m.source (isVariant "LefDefSource") &&
+  optOk m.size sizeOk && optOk m.symmetry symOk && m.pins.all pinOk && m.obs.all lgOk && optOk m.density densOk
+
+/-- the token sequence of a macro, in the writer's order (`wMacro` is this behind its version gate) -/
+def wMacroToks (m : Macro) : List Tok :=
+  [kw "Macro", ident m.name] ++ (opt m.cls wMacroClass ++ ((if m.fixedMask then [kw "FixedMask", semiTok] else []) ++
+    (opt m.foreign wForeign ++ (opt m.origin wOrigin ++
+    (opt m.source (fun s => [kw "Source", en "LefDefSource" s, semiTok]) ++ (opt m.eeq (fun c => [kw "Eeq", ident c, semiTok]) ++
+    (opt m.size (fun s => [kw "Size", num s.1, kw "By", num s.2, semiTok]) ++ (opt m.symmetry wSymmetry ++
+    (opt m.site (fun s => [kw "Site", ident s, semiTok]) ++ (m.pins.flatMap wPin ++ (wObs m.obs ++ (m.properties.flatMap wProp ++
+    (opt m.density wDensity' ++ [kw "End", ident m.name])))))))))))))
+
+theorem wMacro_eq (ver : Dec) (m : Macro) (h : (m.source.isSome && v5p4.lt ver) = false) : wMacro ver m = some (wMacroToks m) := by
+  simp only [wMacro, h, wMacroToks, wObs, wForeign_def, wOrigin_def, show wDensity' = wDensity from rfl, List.append_assoc,
+    Bool.false_eq_true, if_false]
+
+theorem macroBody_w (ver : Dec) (m : Macro) (T : List Tok) (h : macroOk m = true) (hv : m.source.isSome = true → v5p4.lt ver = false) (F : Nat)
+    (hF : st m.cls + (if m.fixedMask then 1 else 0) + st m.foreign + st m.origin + st m.source + st m.eeq + st m.size + st m.symmetry +
+      st m.site + m.pins.length + stl m.obs + m.properties.length + st m.density + 1 ≤ F) :
+    macroBody ver F ⟨m.name, [], [], none, none, none, none, none, none, none, none, false, [], none⟩
+      ((wMacroToks m).drop 2 ++ T) = some (m, ident m.name :: T) := by
+  obtain ⟨name, pins, obs, cls, foreign, origin, size, symmetry, site, source, eeq, fixedMask, props, density⟩ := m
+  simp only [macroOk, Bool.and_eq_true] at h
+  obtain ⟨⟨⟨⟨⟨⟨⟨⟨h1, h2⟩, h3⟩, h4⟩, h5⟩, h6⟩, h7⟩, h8⟩, h9⟩ := h
+  simp only at hF hv
+  obtain ⟨g, rfl⟩ : ∃ g, F = (((((((((((((g + 1) + st density) + props.length) + stl obs) + pins.length) + st site) + st symmetry) + st size)
+      + st eeq) + st source) + st origin) + st foreign) + (if fixedMask then 1 else 0)) + st cls :=
+    ⟨F - (st cls + (if fixedMask then 1 else 0) + st foreign + st origin + st source + st eeq + st size + st symmetry +
+      st site + pins.length + stl obs + props.length + st density + 1), by omega⟩
+  simp only [wMacroToks, List.cons_append, List.nil_append, List.drop_succ_cons, List.drop_zero, List.append_assoc]
+  rw [mac_opt_cls _ _ _ _ _ rfl h1]; dsimp only
+  rw [mac_opt_fixedmask _ _ _ _ _ rfl]; dsimp only
+  rw [mac_opt_foreign _ _ _ _ _ rfl h2]; dsimp only
+  rw [mac_opt_origin _ _ _ _ _ rfl h3]; dsimp only
+  rw [mac_opt_source _ _ _ _ _ rfl h4 hv]; dsimp only
+  rw [mac_opt_eeq _ _ _ _ _ rfl]; dsimp only
+  rw [mac_opt_size _ _ _ _ _ rfl h5]; dsimp only
+  rw [mac_opt_symmetry _ _ _ _ _ rfl h6]; dsimp only
+  rw [mac_opt_site _ _ _ _ _ rfl]; dsimp only
+  rw [mac_pins' _ _ _ _ _ h7]; dsimp only
+  rw [mac_opt_obs _ _ _ _ _ rfl h8]; dsimp only
+  rw [mac_props']; dsimp only
+  rw [mac_opt_density _ _ _ _ _ rfl h9]; dsimp only
+  rw [mac_end]
+  simp
+
+theorem flatMap_wPin_length (ps : List Pin) : ps.length ≤ (ps.flatMap wPin).length := by
+  induction ps with
+  | nil => simp
+  | cons a r ih =>
+    have : 1 ≤ (wPin a).length := by rw [wPin_eq]; simp
+    simp only [List.flatMap_cons, List.length_append, List.length_cons]; omega
+theorem stl_le_wObs (ls : List LayerGeoms) : stl ls ≤ (wObs ls).length := by
+  cases ls with
+  | nil => simp [stl]
+  | cons a r => simp [stl, wObs]
+
+theorem macro_w (ver : Dec) (m : Macro) (T : List Tok) (h : macroOk m = true) (hv : m.source.isSome = true → v5p4.lt ver = false) :
+    macro_ ver (wMacroToks m ++ T) = some (m, T) := by
+  have hb := macroBody_w ver m T h hv (((wMacroToks m).drop 2 ++ T).length + 1) (by
+    simp only [wMacroToks, List.cons_append, List.nil_append, List.drop_succ_cons, List.drop_zero, List.length_append, List.length_cons, List.length_nil]
+    have a1 := st_le_opt m.cls wMacroClass (by intro a; simp [wMacroClass])
+    have a2 : (if m.fixedMask then 1 else 0) ≤ (if m.fixedMask then [kw "FixedMask", semiTok] else []).length := by cases m.fixedMask <;> simp
+    have a3 := st_le_opt m.foreign wForeign (by intro a; simp [wForeign])
+    have a4 := st_le_opt m.origin wOrigin (by intro a; simp [wOrigin])
+    have a5 := st_le_opt m.source (fun s => [kw "Source", en "LefDefSource" s, semiTok]) (by intro a; simp)
+    have a6 := st_le_opt m.eeq (fun c => [kw "Eeq", ident c, semiTok]) (by intro a; simp)
+    have a7 := st_le_opt m.size (fun s => [kw "Size", num s.1, kw "By", num s.2, semiTok]) (by intro a; simp)
+    have a8 := st_le_opt m.symmetry wSymmetry (by intro a; simp [wSymmetry])
+    have a9 := st_le_opt m.site (fun s => [kw "Site", ident s, semiTok]) (by intro a; simp)
+    have a10 := flatMap_wPin_length m.pins
+    have a11 := stl_le_wObs m.obs
+    have a12 := flatMap_wProp_length m.properties
+    have a13 := st_le_opt m.density wDensity' (by intro a; simp [wDensity'])
+    omega)
+  have hsplit : wMacroToks m ++ T = kw "Macro" :: ident m.name :: ((wMacroToks m).drop 2 ++ T) := by
+    simp [wMacroToks]
+  rw [hsplit]
+  unfold macro_
+  simp only [expectKey_kw "Macro" _ k_Macro, getName_ident, Option.bind_eq_bind, Option.bind_some]
+  rw [hb]
+  simp [expectIdent, getName_ident]
+
+/-! ### sites -/
+theorem t_SiteClass : (lefEnums.lookup "LefSiteClass").isSome = true := by decide +kernel
+
+theorem sb_class (name : Str) (f : Nat) (b : SiteB) (e : String) (T : List Tok) (h : isVariant "LefSiteClass" e = true) :
+    siteBody name (f + 1) b (kw "Class" :: en "LefSiteClass" e :: semiTok :: T) = siteBody name f { b with cls := some e } T := by
+  generalize hts : kw "Class" :: en "LefSiteClass" e :: semiTok :: T = ts
+  have hpk : peekKey ts = some "Class" := by subst hts; exact peekKey_kw _ _ k_Class
+  have htl : ts.tail = en "LefSiteClass" e :: semiTok :: T := by subst hts; rfl
+  have hl : T.length < ts.length := by subst hts; simp; omega
+  rw [siteBody]; simp [hpk, htl, parseEnum_en "LefSiteClass" e _ t_SiteClass h, semi_semiTok, hl]
+
+theorem sb_symmetry (name : Str) (f : Nat) (b : SiteB) (ss : List String) (T : List Tok) (h : symOk ss = true) :
+    siteBody name (f + 1) b (wSymmetry ss ++ T) = siteBody name f { b with symmetry := some ss } T := by
+  have heq : wSymmetry ss ++ T = kw "Symmetry" :: (ss.map (en "LefSymmetry") ++ semiTok :: T) := by simp [wSymmetry]
+  rw [heq]
+  generalize hts : kw "Symmetry" :: (ss.map (en "LefSymmetry") ++ semiTok :: T) = ts
+  have hpk : peekKey ts = some "Symmetry" := by subst hts; exact peekKey_kw _ _ k_Symmetry
+  have htl : ts.tail = ss.map (en "LefSymmetry") ++ semiTok :: T := by subst hts; rfl
+  have hl : T.length < ts.length := by subst hts; simp; omega
+  have hlen : ss.length + 1 ≤ ts.length + 1 := by subst hts; simp; omega
+  have hs := symmetries_w T ss [] (ts.length + 1) hlen h
+  rw [siteBody]; simp [hpk, htl, hs, hl]
+
+theorem sb_opt_symmetry (name : Str) (f : Nat) (b : SiteB) (o : Option (List String)) (T : List Tok) (hp : b.symmetry = none)
+    (h : optOk o symOk = true) :
+    siteBody name (f + st o) b (opt o wSymmetry ++ T) = siteBody name f { b with symmetry := o } T := by
+  cases o with
+  | none => cases b; simp only at hp; subst hp; simp [st, opt]
+  | some d => simpa [st, opt] using sb_symmetry name f b d T h
+
+theorem sb_size (name : Str) (f : Nat) (b : SiteB) (sz : Dec × Dec) (T : List Tok) (h : sizeOk sz = true) :
+    siteBody name (f + 1) b (kw "Size" :: num sz.1 :: kw "By" :: num sz.2 :: semiTok :: T) = siteBody name f { b with size := some sz } T := by
+  simp only [sizeOk, Bool.and_eq_true] at h
+  have hs := sizeStmt_w sz.1 sz.2 T h.1 h.2
+  generalize hts : kw "Size" :: num sz.1 :: kw "By" :: num sz.2 :: semiTok :: T = ts at hs
+  have hpk : peekKey ts = some "Size" := by subst hts; exact peekKey_kw _ _ k_Size
+  have hl : T.length < ts.length := by subst hts; simp; omega
+  rw [siteBody]; simp [hpk, hs, hl]
+
+theorem sb_end (name : Str) (f : Nat) (c : String) (sz : Dec × Dec) (sym : Option (List String)) (T : List Tok) :
+    siteBody name (f + 1) ⟨some c, some sz, sym⟩ (kw "End" :: ident name :: T) = some (⟨name, c, sz, sym⟩, T) := by
+  rw [siteBody]; simp [peekKey_kw "End" _ k_End, expectIdent, getName_ident]
+
+def siteOk (s : Site) : Bool := isVariant "LefSiteClass" s.cls && sizeOk s.size && optOk s.symmetry symOk
+
+theorem site_w (s : Site) (T : List Tok) (h : siteOk s = true) : site (wSite s ++ T) = some (s, T) := by
+  obtain ⟨name, cls, size, sym⟩ := s
+  simp only [siteOk, Bool.and_eq_true] at h
+  obtain ⟨⟨h1, h2⟩, h3⟩ := h
+  have a := st_le_opt sym wSymmetry (by intro a; simp [wSymmetry])
+  simp only [wSite, List.cons_append, List.nil_append, List.append_assoc]
+  unfold site
+  simp only [expectKey_kw "Site" _ k_Site, getName_ident, Option.bind_eq_bind, Option.bind_some]
+  obtain ⟨g, hg⟩ : ∃ g, (kw "Class" :: en "LefSiteClass" cls :: semiTok :: (opt sym wSymmetry ++
+      (kw "Size" :: num size.1 :: kw "By" :: num size.2 :: semiTok :: kw "End" :: ident name :: T))).length + 1
+      = (((g + 1) + 1) + st sym) + 1 := ⟨8 + (opt sym wSymmetry).length + T.length - st sym, by simp only [List.length_cons, List.length_append]; omega⟩
+  rw [hg, sb_class _ _ _ _ _ h1]; dsimp only
+  rw [sb_opt_symmetry _ _ _ _ _ rfl h3]; dsimp only
+  rw [sb_size _ _ _ _ _ h2]; dsimp only
+  rw [sb_end]
+
+/-! ### units -/
+theorem k_Resistance : isKey "Resistance" = true := by decide +kernel
+theorem k_Database : isKey "Database" = true := by decide +kernel
+theorem k_Microns : isKey "Microns" = true := by decide +kernel
+theorem k_Units : isKey "Units" = true := by decide +kernel
+theorem k_Time : isKey "Time" = true := by decide +kernel
+theorem k_Nanoseconds : isKey "Nanoseconds" = true := by decide +kernel
+theorem k_Capacitance : isKey "Capacitance" = true := by decide +kernel
+theorem k_Picofarads : isKey "Picofarads" = true := by decide +kernel
+theorem k_Ohms : isKey "Ohms" = true := by decide +kernel
+theorem k_Power : isKey "Power" = true := by decide +kernel
+theorem k_Milliwatts : isKey "Milliwatts" = true := by decide +kernel
+theorem k_Current : isKey "Current" = true := by decide +kernel
+theorem k_Milliamps : isKey "Milliamps" = true := by decide +kernel
+theorem k_Voltage : isKey "Voltage" = true := by decide +kernel
+theorem k_Volts : isKey "Volts" = true := by decide +kernel
+theorem k_Frequency : isKey "Frequency" = true := by decide +kernel
+theorem k_Megahertz : isKey "Megahertz" = true := by decide +kernel
+theorem un_time (f : Nat) (u : Units) (d : Dec) (T : List Tok) (h : decOk d = true) :
+    unitsBody (f + 1) u (kw "Time" :: kw "Nanoseconds" :: num d :: semiTok :: T) = unitsBody f { u with time := some d } T := by
+  rw [unitsBody]; simp [getKey_kw "Time" _ k_Time, expectKey_kw "Nanoseconds" _ k_Nanoseconds, number_num d _ h, semi_semiTok]
+theorem un_opt_time (f : Nat) (u : Units) (o : Option Dec) (T : List Tok) (hp : u.time = none) (h : optOk o decOk = true) :
+    unitsBody (f + st o) u (opt o (fun d => [kw "Time", kw "Nanoseconds", num d, semiTok]) ++ T) = unitsBody f { u with time := o } T := by
+  cases o with
+  | none => cases u; simp only at hp; subst hp; simp [st, opt]
+  | some d => simpa [st, opt] using un_time f u d T h
+theorem un_cap (f : Nat) (u : Units) (d : Dec) (T : List Tok) (h : decOk d = true) :
+    unitsBody (f + 1) u (kw "Capacitance" :: kw "Picofarads" :: num d :: semiTok :: T) = unitsBody f { u with cap := some d } T := by
+  rw [unitsBody]; simp [getKey_kw "Capacitance" _ k_Capacitance, expectKey_kw "Picofarads" _ k_Picofarads, number_num d _ h, semi_semiTok]
+theorem un_opt_cap (f : Nat) (u : Units) (o : Option Dec) (T : List Tok) (hp : u.cap = none) (h : optOk o decOk = true) :
+    unitsBody (f + st o) u (opt o (fun d => [kw "Capacitance", kw "Picofarads", num d, semiTok]) ++ T) = unitsBody f { u with cap := o } T := by
+  cases o with
+  | none => cases u; simp only at hp; subst hp; simp [st, opt]
+  | some d => simpa [st, opt] using un_cap f u d T h
+theorem un_res (f : Nat) (u : Units) (d : Dec) (T : List Tok) (h : decOk d = true) :
+    unitsBody (f + 1) u (kw "Resistance" :: kw "Ohms" :: num d :: semiTok :: T) = unitsBody f { u with res := some d } T := by
+  rw [unitsBody]; simp [getKey_kw "Resistance" _ k_Resistance, expectKey_kw "Ohms" _ k_Ohms, number_num d _ h, semi_semiTok]
+theorem un_opt_res (f : Nat) (u : Units) (o : Option Dec) (T : List Tok) (hp : u.res = none) (h : optOk o decOk = true) :
+    unitsBody (f + st o) u (opt o (fun d => [kw "Resistance", kw "Ohms", num d, semiTok]) ++ T) = unitsBody f { u with res := o } T := by
+  cases o with
+  | none => cases u; simp only at hp; subst hp; simp [st, opt]
+  | some d => simpa [st, opt] using un_res f u d T h
+theorem un_power (f : Nat) (u : Units) (d : Dec) (T : List Tok) (h : decOk d = true) :
+    unitsBody (f + 1) u (kw "Power" :: kw "Milliwatts" :: num d :: semiTok :: T) = unitsBody f { u with power := some d } T := by
+  rw [unitsBody]; simp [getKey_kw "Power" _ k_Power, expectKey_kw "Milliwatts" _ k_Milliwatts, number_num d _ h, semi_semiTok]
+theorem un_opt_power (f : Nat) (u : Units) (o : Option Dec) (T : List Tok) (hp : u.power = none) (h : optOk o decOk = true) :
+    unitsBody (f + st o) u (opt o (fun d => [kw "Power", kw "Milliwatts", num d, semiTok]) ++ T) = unitsBody f { u with power := o } T := by
+  cases o with
+  | none => cases u; simp only at hp; subst hp; simp [st, opt]
+  | some d => simpa [st, opt] using un_power f u d T h
+theorem un_current (f : Nat) (u : Units) (d : Dec) (T : List Tok) (h : decOk d = true) :
+    unitsBody (f + 1) u (kw "Current" :: kw "Milliamps" :: num d :: semiTok :: T) = unitsBody f { u with current := some d } T := by
+  rw [unitsBody]; simp [getKey_kw "Current" _ k_Current, expectKey_kw "Milliamps" _ k_Milliamps, number_num d _ h, semi_semiTok]
+theorem un_opt_current (f : Nat) (u : Units) (o : Option Dec) (T : List Tok) (hp : u.current = none) (h : optOk o decOk = true) :
+    unitsBody (f + st o) u (opt o (fun d => [kw "Current", kw "Milliamps", num d, semiTok]) ++ T) = unitsBody f { u with current := o } T := by
+  cases o with
+  | none => cases u; simp only at hp; subst hp; simp [st, opt]
+  | some d => simpa [st, opt] using un_current f u d T h
+theorem un_voltage (f : Nat) (u : Units) (d : Dec) (T : List Tok) (h : decOk d = true) :
+    unitsBody (f + 1) u (kw "Voltage" :: kw "Volts" :: num d :: semiTok :: T) = unitsBody f { u with voltage := some d } T := by
+  rw [unitsBody]; simp [getKey_kw "Voltage" _ k_Voltage, expectKey_kw "Volts" _ k_Volts, number_num d _ h, semi_semiTok]
+theorem un_opt_voltage (f : Nat) (u : Units) (o : Option Dec) (T : List Tok) (hp : u.voltage = none) (h : optOk o decOk = true) :
+    unitsBody (f + st o) u (opt o (fun d => [kw "Voltage", kw "Volts", num d, semiTok]) ++ T) = unitsBody f { u with voltage := o } T := by
+  cases o with
+  | none => cases u; simp only at hp; subst hp; simp [st, opt]
+  | some d => simpa [st, opt] using un_voltage f u d T h
+theorem un_freq (f : Nat) (u : Units) (d : Dec) (T : List Tok) (h : decOk d = true) :
+    unitsBody (f + 1) u (kw "Frequency" :: kw "Megahertz" :: num d :: semiTok :: T) = unitsBody f { u with freq := some d } T := by
+  rw [unitsBody]; simp [getKey_kw "Frequency" _ k_Frequency, expectKey_kw "Megahertz" _ k_Megahertz, number_num d _ h, semi_semiTok]
+theorem un_opt_freq (f : Nat) (u : Units) (o : Option Dec) (T : List Tok) (hp : u.freq = none) (h : optOk o decOk = true) :
+    unitsBody (f + st o) u (opt o (fun d => [kw "Frequency", kw "Megahertz", num d, semiTok]) ++ T) = unitsBody f { u with freq := o } T := by
+  cases o with
+  | none => cases u; simp only at hp; subst hp; simp [st, opt]
+  | some d => simpa [st, opt] using un_freq f u d T h
+def dbuOk (v : Int) : Bool := decOk ⟨v, 0⟩ && dbuTryNew ⟨v, 0⟩ == some v
+theorem un_dbu (f : Nat) (u : Units) (v : Int) (T : List Tok) (h : dbuOk v = true) :
+    unitsBody (f + 1) u (kw "Database" :: kw "Microns" :: num ⟨v, 0⟩ :: semiTok :: T) = unitsBody f { u with dbu := some v } T := by
+  simp only [dbuOk, Bool.and_eq_true, beq_iff_eq] at h
+  rw [unitsBody]; simp [getKey_kw "Database" _ k_Database, expectKey_kw "Microns" _ k_Microns, number_num _ _ h.1, semi_semiTok, h.2]
+theorem un_opt_dbu (f : Nat) (u : Units) (o : Option Int) (T : List Tok) (hp : u.dbu = none) (h : optOk o dbuOk = true) :
+    unitsBody (f + st o) u (opt o (fun v => [kw "Database", kw "Microns", num ⟨v, 0⟩, semiTok]) ++ T) = unitsBody f { u with dbu := o } T := by
+  cases o with
+  | none => cases u; simp only at hp; subst hp; simp [st, opt]
+  | some d => simpa [st, opt] using un_dbu f u d T h
+theorem un_end (f : Nat) (u : Units) (T : List Tok) : unitsBody (f + 1) u (kw "End" :: kw "Units" :: T) = some (u, T) := by
+  rw [unitsBody]; simp [getKey_kw "End" _ k_End, expectKey_kw "Units" _ k_Units]
+
+def unitsOk (u : Units) : Bool :=
+  optOk u.time decOk && optOk u.cap decOk && optOk u.res decOk && optOk u.power decOk && optOk u.current decOk &&
+  optOk u.voltage decOk && optOk u.dbu dbuOk && optOk u.freq decOk
+
+theorem units_w (u : Units) (T : List Tok) (h : unitsOk u = true) (F : Nat)
+    (hF : st u.time + st u.cap + st u.res + st u.power + st u.current + st u.voltage + st u.dbu + st u.freq + 1 ≤ F) :
+    unitsBody F {} ((wUnits u).tail ++ T) = some (u, T) := by
+  obtain ⟨dbu, time, cap, res, power, current, voltage, freq⟩ := u
+  simp only [unitsOk, Bool.and_eq_true] at h
+  obtain ⟨⟨⟨⟨⟨⟨⟨h1, h2⟩, h3⟩, h4⟩, h5⟩, h6⟩, h7⟩, h8⟩ := h
+  simp only at hF
+  obtain ⟨g, rfl⟩ : ∃ g, F = ((((((((g + 1) + st freq) + st dbu) + st voltage) + st current) + st power) + st res) + st cap) + st time :=
+    ⟨F - (st time + st cap + st res + st power + st current + st voltage + st dbu + st freq + 1), by omega⟩
+  simp only [wUnits, List.cons_append, List.nil_append, List.tail_cons, List.append_assoc]
+  rw [un_opt_time _ _ _ _ rfl h1]; dsimp only
+  rw [un_opt_cap _ _ _ _ rfl h2]; dsimp only
+  rw [un_opt_res _ _ _ _ rfl h3]; dsimp only
+  rw [un_opt_power _ _ _ _ rfl h4]; dsimp only
+  rw [un_opt_current _ _ _ _ rfl h5]; dsimp only
+  rw [un_opt_voltage _ _ _ _ rfl h6]; dsimp only
+  rw [un_opt_dbu _ _ _ _ rfl h7]; dsimp only
+  rw [un_opt_freq _ _ _ _ rfl h8]; dsimp only
+  rw [un_end]
+
+/-! ### via definitions -/
+theorem k_Default : isKey "Default" = true := by decide +kernel
+theorem k_ViaRule : isKey "ViaRule" = true := by decide +kernel
+theorem k_CutSize : isKey "CutSize" = true := by decide +kernel
+theorem k_Layers : isKey "Layers" = true := by decide +kernel
+theorem k_CutSpacing : isKey "CutSpacing" = true := by decide +kernel
+theorem k_Enclosure : isKey "Enclosure" = true := by decide +kernel
+theorem k_RowCol : isKey "RowCol" = true := by decide +kernel
+theorem k_Offset : isKey "Offset" = true := by decide +kernel
+
+theorem viaMask_w (m : Option Dec) (t : Tok) (r : List Tok) (hm : maskOk m = true) (ht : t.tt = .number) :
+    viaMask (wMask m ++ t :: r) = some (m, t :: r) := by
+  cases m with
+  | none =>
+    have : matchesTT .name (t :: r) = false := by simp [matchesTT, ht]
+    simp [wMask, opt, viaMask, this]
+  | some d =>
+    simp only [maskOk] at hm
+    have : matchesTT .name (kw "Mask" :: num d :: t :: r) = true := by simp [matchesTT, kw]
+    simp [wMask, opt, viaMask, this, getKey_kw "Mask" _ k_Mask, number_num d _ hm]
+
+def vshapeOk : ViaShape → Bool
+  | .rect m a b => maskOk m && ptOk a && ptOk b
+  | .polygon m ps => maskOk m && ps.all ptOk && decide (3 ≤ ps.length)
+
+theorem viaShape_w (s : ViaShape) (T : List Tok) (h : vshapeOk s = true) : viaShape (wViaShape s ++ T) = some (s, T) := by
+  cases s with
+  | rect m a b =>
+    simp only [vshapeOk, Bool.and_eq_true] at h
+    obtain ⟨⟨hm, ha⟩, hb⟩ := h
+    have e : wViaShape (.rect m a b) ++ T = kw "Rect" :: (wMask m ++ num a.x :: (num a.y :: (wPt b ++ semiTok :: T))) := by
+      simp [wViaShape, wPt]
+    rw [e, viaShape]
+    simp only [peekKey_kw "Rect" _ k_Rect, beq_self_eq_true, if_true, List.tail_cons, Option.bind_eq_bind]
+    rw [viaMask_w m _ _ hm (by simp [num])]
+    have : num a.x :: num a.y :: (wPt b ++ semiTok :: T) = wPt a ++ (wPt b ++ semiTok :: T) := by simp [wPt]
+    simp only [Option.bind_some, this, point_wPt a _ ha, point_wPt b _ hb, semi_semiTok]
+    rfl
+  | polygon m ps =>
+    simp only [vshapeOk, Bool.and_eq_true, decide_eq_true_eq] at h
+    obtain ⟨⟨hm, hp⟩, hl⟩ := h
+    obtain ⟨p0, ps', rfl⟩ : ∃ p0 ps', ps = p0 :: ps' := by cases ps with | nil => simp at hl | cons a b => exact ⟨a, b, rfl⟩
+    have e : wViaShape (.polygon m (p0 :: ps')) ++ T = kw "Polygon" :: (wMask m ++ num p0.x :: (num p0.y :: (ps'.flatMap wPt ++ semiTok :: T))) := by
+      simp [wViaShape, wPt]
+    rw [e, viaShape]
+    simp only [peekKey_kw "Polygon" _ k_Polygon, show ("Polygon" == "Rect") = false by decide, beq_self_eq_true, if_true,
+      Bool.false_eq_true, if_false, List.tail_cons, Option.bind_eq_bind]
+    rw [viaMask_w m _ _ hm (by simp [num])]
+    simp only [Option.bind_some]
+    rw [← flatMap_wPt_cons, pointList_w (p0 :: ps') (semiTok :: T) _ (by
+      simp only [List.length_append, flatMap_wPt_length, List.length_cons]; omega) hp (by simp [matchesTT, semiTok])]
+    have hnl : ¬ ((p0 :: ps').length < 3) := by omega
+    simp only [Option.bind_some, hnl, if_false, semi_semiTok]
+    rfl
+
+theorem wViaShape_key (s : ViaShape) (R : List Tok) : peekKey (wViaShape s ++ R) = some "Rect" ∨ peekKey (wViaShape s ++ R) = some "Polygon" := by
+  cases s with
+  | rect m a b => left; simp only [wViaShape, List.append_assoc, List.cons_append]; exact peekKey_kw _ _ k_Rect
+  | polygon m ps => right; simp only [wViaShape, List.append_assoc, List.cons_append]; exact peekKey_kw _ _ k_Polygon
+
+theorem wViaShape_length (s : ViaShape) : 1 ≤ (wViaShape s).length := by
+  cases s <;> simp [wViaShape]
+
+theorem viaShapes_w (T : List Tok) (hT : (∃ r, T = kw "Layer" :: r) ∨ (∃ r, T = kw "End" :: r)) :
+    ∀ (ss : List ViaShape) (acc : List ViaShape) (f : Nat), ss.length + 1 ≤ f → ss.all vshapeOk = true →
+    viaShapes f acc (ss.flatMap wViaShape ++ T) = some (acc ++ ss, T) := by
+  intro ss
+  induction ss with
+  | nil =>
+    intro acc f hf _
+    obtain ⟨g, rfl⟩ : ∃ g, f = g + 1 := ⟨f - 1, by simp at hf; omega⟩
+    rcases hT with ⟨r, rfl⟩ | ⟨r, rfl⟩
+    · rw [viaShapes]; simp [peekKey_kw "Layer" _ k_Layer]
+    · rw [viaShapes]; simp [peekKey_kw "End" _ k_End]
+  | cons s r ih =>
+    intro acc f hf hok
+    obtain ⟨g, rfl⟩ : ∃ g, f = g + 1 := ⟨f - 1, by simp at hf; omega⟩
+    simp only [List.all_cons, Bool.and_eq_true] at hok
+    simp only [List.flatMap_cons, List.append_assoc]
+    have hv := viaShape_w s (r.flatMap wViaShape ++ T) hok.1
+    have hk := wViaShape_key s (r.flatMap wViaShape ++ T)
+    have hl : (r.flatMap wViaShape ++ T).length < (wViaShape s ++ (r.flatMap wViaShape ++ T)).length := by
+      have := wViaShape_length s; simp only [List.length_append]; omega
+    have hne : (wViaShape s ++ (r.flatMap wViaShape ++ T)).isEmpty = false := by
+      cases s <;> simp [wViaShape]
+    generalize hR : r.flatMap wViaShape ++ T = R at hv hk hl hne
+    generalize wViaShape s ++ R = ts at hv hk hl hne
+    rw [viaShapes]
+    rcases hk with hk | hk <;> simp [hk, hv, hl, hne] <;> subst hR <;> rw [ih _ g (by simp at hf; omega) hok.2] <;> simp
+
+def wViaLayer (l : ViaLayer) : List Tok := [kw "Layer", ident l.layerName, semiTok] ++ l.shapes.flatMap wViaShape
+def vlayerOk (l : ViaLayer) : Bool := l.shapes.all vshapeOk
+
+theorem flatMap_wViaShape_length (ss : List ViaShape) : ss.length ≤ (ss.flatMap wViaShape).length := by
+  induction ss with
+  | nil => simp
+  | cons a r ih => have := wViaShape_length a; simp only [List.flatMap_cons, List.length_append, List.length_cons]; omega
+
+theorem viaLayers_w (T : List Tok) (hT : ∃ r, T = kw "End" :: r) :
+    ∀ (ls : List ViaLayer) (acc : List ViaLayer) (f : Nat), ls.length + 1 ≤ f → ls.all vlayerOk = true →
+    viaLayers f acc (ls.flatMap wViaLayer ++ T) = some (acc ++ ls, T) := by
+  intro ls
+  induction ls with
+  | nil =>
+    intro acc f hf _
+    obtain ⟨g, rfl⟩ : ∃ g, f = g + 1 := ⟨f - 1, by simp at hf; omega⟩
+    obtain ⟨r, rfl⟩ := hT
+    rw [viaLayers]; simp [peekKey_kw "End" _ k_End]
+  | cons l r ih =>
+    intro acc f hf hok
+    obtain ⟨g, rfl⟩ : ∃ g, f = g + 1 := ⟨f - 1, by simp at hf; omega⟩
+    simp only [List.all_cons, Bool.and_eq_true] at hok
+    obtain ⟨n, ss⟩ := l
+    have hT' : (∃ q, r.flatMap wViaLayer ++ T = kw "Layer" :: q) ∨ (∃ q, r.flatMap wViaLayer ++ T = kw "End" :: q) := by
+      cases r with
+      | nil => right; obtain ⟨q, rfl⟩ := hT; exact ⟨q, by simp⟩
+      | cons a b => left; exact ⟨_, by simp [wViaLayer]; rfl⟩
+    have e : (⟨n, ss⟩ :: r).flatMap wViaLayer ++ T = kw "Layer" :: ident n :: semiTok :: (ss.flatMap wViaShape ++ (r.flatMap wViaLayer ++ T)) := by
+      simp [wViaLayer]
+    rw [e]
+    generalize hR : r.flatMap wViaLayer ++ T = R at hT'
+    have hs := viaShapes_w R hT' ss [] ((ss.flatMap wViaShape ++ R).length + 1) (by
+      have := flatMap_wViaShape_length ss; simp only [List.length_append]; omega) hok.1
+    have hRS : R.length ≤ (ss.flatMap wViaShape ++ R).length := by simp only [List.length_append]; omega
+    generalize ss.flatMap wViaShape ++ R = S at hs hRS
+    generalize hts : kw "Layer" :: ident n :: semiTok :: S = ts
+    have hpk : peekKey ts = some "Layer" := by subst hts; exact peekKey_kw _ _ k_Layer
+    have htl : ts.tail = ident n :: semiTok :: S := by subst hts; rfl
+    have hl : R.length < ts.length := by subst hts; simp only [List.length_cons]; omega
+    rw [viaLayers]; simp [hpk, htl, getName_ident, semi_semiTok, hs, hl]
+    subst hR
+    rw [ih _ g (by simp at hf; omega) hok.2]; simp
+
+theorem num2_w (a b : Dec) (T : List Tok) (ha : decOk a = true) (hb : decOk b = true) : num2 (num a :: num b :: T) = some ((a, b), T) := by
+  simp [num2, number_num, ha, hb]
+theorem num4_w (a b c d : Dec) (T : List Tok) (ha : decOk a = true) (hb : decOk b = true) (hc : decOk c = true) (hd : decOk d = true) :
+    num4 (num a :: num b :: num c :: num d :: T) = some ((a, b, c, d), T) := by
+  simp [num4, num2_w, ha, hb, hc, hd]
+
+def d2Ok (p : Dec × Dec) : Bool := decOk p.1 && decOk p.2
+def d4Ok (p : Dec × Dec × Dec × Dec) : Bool := decOk p.1 && decOk p.2.1 && decOk p.2.2.1 && decOk p.2.2.2
+
+theorem gv_cutsize (f : Nat) (g : GenB) (v : Dec × Dec) (T : List Tok) (h : d2Ok v = true) :
+    genViaBody (f + 1) g (kw "CutSize" :: num v.1 :: num v.2 :: semiTok :: T) = genViaBody f { g with cutSize := some v } T := by
+  simp only [d2Ok, Bool.and_eq_true] at h
+  rw [genViaBody]; simp [peekKey_kw "CutSize" _ k_CutSize, num2_w _ _ _ h.1 h.2, semi_semiTok]
+theorem gv_layers (f : Nat) (g : GenB) (v : Str × Str × Str) (T : List Tok) :
+    genViaBody (f + 1) g (kw "Layers" :: ident v.1 :: ident v.2.1 :: ident v.2.2 :: semiTok :: T) = genViaBody f { g with layers := some v } T := by
+  rw [genViaBody]; simp [peekKey_kw "Layers" _ k_Layers, getName_ident, semi_semiTok]
+theorem gv_cutspacing (f : Nat) (g : GenB) (v : Dec × Dec) (T : List Tok) (h : d2Ok v = true) :
+    genViaBody (f + 1) g (kw "CutSpacing" :: num v.1 :: num v.2 :: semiTok :: T) = genViaBody f { g with cutSpacing := some v } T := by
+  simp only [d2Ok, Bool.and_eq_true] at h
+  rw [genViaBody]; simp [peekKey_kw "CutSpacing" _ k_CutSpacing, num2_w _ _ _ h.1 h.2, semi_semiTok]
+theorem gv_enclosure (f : Nat) (g : GenB) (v : Dec × Dec × Dec × Dec) (T : List Tok) (h : d4Ok v = true) :
+    genViaBody (f + 1) g (kw "Enclosure" :: num v.1 :: num v.2.1 :: num v.2.2.1 :: num v.2.2.2 :: semiTok :: T) = genViaBody f { g with enclosure := some v } T := by
+  simp only [d4Ok, Bool.and_eq_true] at h
+  rw [genViaBody]; simp [peekKey_kw "Enclosure" _ k_Enclosure, num4_w _ _ _ _ _ h.1.1.1 h.1.1.2 h.1.2 h.2, semi_semiTok]
+theorem gv_rowcol (f : Nat) (g : GenB) (v : Dec × Dec) (T : List Tok) (h : d2Ok v = true) :
+    genViaBody (f + 1) g (kw "RowCol" :: num v.1 :: num v.2 :: semiTok :: T) = genViaBody f { g with rowcol := some v } T := by
+  simp only [d2Ok, Bool.and_eq_true] at h
+  rw [genViaBody]; simp [peekKey_kw "RowCol" _ k_RowCol, num2_w _ _ _ h.1 h.2, semi_semiTok]
+theorem gv_origin (f : Nat) (g : GenB) (v : Pt) (T : List Tok) (h : ptOk v = true) :
+    genViaBody (f + 1) g (kw "Origin" :: (wPt v ++ semiTok :: T)) = genViaBody f { g with origin := some v } T := by
+  rw [genViaBody]; simp [peekKey_kw "Origin" _ k_Origin, point_wPt v _ h, semi_semiTok]
+theorem gv_offset (f : Nat) (g : GenB) (v : Dec × Dec × Dec × Dec) (T : List Tok) (h : d4Ok v = true) :
+    genViaBody (f + 1) g (kw "Offset" :: num v.1 :: num v.2.1 :: num v.2.2.1 :: num v.2.2.2 :: semiTok :: T) = genViaBody f { g with offset := some v } T := by
+  simp only [d4Ok, Bool.and_eq_true] at h
+  rw [genViaBody]; simp [peekKey_kw "Offset" _ k_Offset, num4_w _ _ _ _ _ h.1.1.1 h.1.1.2 h.1.2 h.2, semi_semiTok]
+theorem gv_end (f : Nat) (g : GenB) (T : List Tok) : genViaBody (f + 1) g (kw "End" :: T) = some (g, kw "End" :: T) := by
+  rw [genViaBody]; simp [peekKey_kw "End" _ k_End]
+
+theorem gv_opt_rowcol (f : Nat) (g : GenB) (o : Option (Dec × Dec)) (T : List Tok) (hp : g.rowcol = none) (h : optOk o d2Ok = true) :
+    genViaBody (f + st o) g (opt o (fun r => [kw "RowCol", num r.1, num r.2, semiTok]) ++ T) = genViaBody f { g with rowcol := o } T := by
+  cases o with
+  | none => cases g; simp only at hp; subst hp; simp [st, opt]
+  | some d => simpa [st, opt] using gv_rowcol f g d T h
+theorem gv_opt_origin (f : Nat) (g : GenB) (o : Option Pt) (T : List Tok) (hp : g.origin = none) (h : optOk o ptOk = true) :
+    genViaBody (f + st o) g (opt o wOrigin ++ T) = genViaBody f { g with origin := o } T := by
+  cases o with
+  | none => cases g; simp only at hp; subst hp; simp [st, opt]
+  | some d => simpa [st, opt, wOrigin] using gv_origin f g d T h
+theorem gv_opt_offset (f : Nat) (g : GenB) (o : Option (Dec × Dec × Dec × Dec)) (T : List Tok) (hp : g.offset = none) (h : optOk o d4Ok = true) :
+    genViaBody (f + st o) g (opt o (fun o => [kw "Offset", num o.1, num o.2.1, num o.2.2.1, num o.2.2.2, semiTok]) ++ T) = genViaBody f { g with offset := o } T := by
+  cases o with
+  | none => cases g; simp only at hp; subst hp; simp [st, opt]
+  | some d => simpa [st, opt] using gv_offset f g d T h
+
+def genOk (g : GenVia) : Bool :=
+  d2Ok g.cutSize && d2Ok g.cutSpacing && d4Ok g.enclosure && optOk g.rowcol d2Ok && optOk g.origin ptOk && optOk g.offset d4Ok
+
+/-- the statements of a generated via after `VIARULE name ;` -/
+def wGenBody (g : GenVia) : List Tok :=
+  kw "CutSize" :: num g.cutSize.1 :: num g.cutSize.2 :: semiTok ::
+  kw "Layers" :: ident g.layers.1 :: ident g.layers.2.1 :: ident g.layers.2.2 :: semiTok ::
+  kw "CutSpacing" :: num g.cutSpacing.1 :: num g.cutSpacing.2 :: semiTok ::
+  kw "Enclosure" :: num g.enclosure.1 :: num g.enclosure.2.1 :: num g.enclosure.2.2.1 :: num g.enclosure.2.2.2 :: semiTok ::
+  (opt g.rowcol (fun r => [kw "RowCol", num r.1, num r.2, semiTok]) ++ (opt g.origin wOrigin ++
+    opt g.offset (fun o => [kw "Offset", num o.1, num o.2.1, num o.2.2.1, num o.2.2.2, semiTok])))
+
+theorem genBody_w (g : GenVia) (T : List Tok) (h : genOk g = true) (F : Nat) (hF : 8 ≤ F) :
+    genViaBody F { rule := g.rule } (wGenBody g ++ kw "End" :: T) =
+      some (⟨g.rule, some g.cutSize, some g.layers, some g.cutSpacing, some g.enclosure, g.rowcol, g.origin, g.offset⟩, kw "End" :: T) := by
+  obtain ⟨rule, cs, ls, sp, en, rc, og, off⟩ := g
+  simp only [genOk, Bool.and_eq_true] at h
+  obtain ⟨⟨⟨⟨⟨h1, h2⟩, h3⟩, h4⟩, h5⟩, h6⟩ := h
+  have b1 : st rc ≤ 1 := by simp only [st]; split <;> omega
+  have b2 : st og ≤ 1 := by simp only [st]; split <;> omega
+  have b3 : st off ≤ 1 := by simp only [st]; split <;> omega
+  obtain ⟨n, rfl⟩ : ∃ n, F = (((((((n + 1) + st off) + st og) + st rc) + 1) + 1) + 1) + 1 := ⟨F - (st rc + st og + st off + 5), by omega⟩
+  simp only [wGenBody, List.cons_append, List.append_assoc]
+  rw [gv_cutsize _ _ _ _ h1]; dsimp only
+  rw [gv_layers]; dsimp only
+  rw [gv_cutspacing _ _ _ _ h2]; dsimp only
+  rw [gv_enclosure _ _ _ _ h3]; dsimp only
+  rw [gv_opt_rowcol _ _ _ _ rfl h4]; dsimp only
+  rw [gv_opt_origin _ _ _ _ rfl h5]; dsimp only
+  rw [gv_opt_offset _ _ _ _ rfl h6]; dsimp only
+  rw [gv_end]
+
+def wViaData : ViaData → List Tok
+  | .fixed r ls => opt r (fun d => [kw "Resistance", num d, semiTok]) ++ ls.flatMap wViaLayer
+  | .generated g => kw "ViaRule" :: ident g.rule :: semiTok :: wGenBody g
+
+def viaDataOk : ViaData → Bool
+  | .fixed r ls => optOk r decOk && ls.all vlayerOk
+  | .generated g => genOk g
+
+theorem flatMap_wViaLayer_length (ls : List ViaLayer) : ls.length ≤ (ls.flatMap wViaLayer).length := by
+  induction ls with
+  | nil => simp
+  | cons a r ih =>
+    have : 1 ≤ (wViaLayer a).length := by simp [wViaLayer]
+    simp only [List.flatMap_cons, List.length_append, List.length_cons]; omega
+
+theorem viaDataP_w (d : ViaData) (T : List Tok) (h : viaDataOk d = true) :
+    viaDataP (wViaData d ++ kw "End" :: T) = some (d, kw "End" :: T) := by
+  cases d with
+  | generated g =>
+    simp only [viaDataOk] at h
+    have hb := genBody_w g T h ((wGenBody g ++ kw "End" :: T).length + 1) (by
+      simp only [wGenBody, List.length_cons, List.length_append]; omega)
+    simp only [wViaData, List.cons_append]
+    unfold viaDataP
+    simp only [peekKey_kw "ViaRule" _ k_ViaRule, beq_self_eq_true, if_true, List.tail_cons, getName_ident, semi_semiTok,
+      Option.bind_eq_bind, Option.bind_some, Option.pure_def]
+    rw [hb]
+    cases g; rfl
+  | fixed r ls =>
+    simp only [viaDataOk, Bool.and_eq_true] at h
+    have hl := viaLayers_w (kw "End" :: T) ⟨T, rfl⟩ ls [] ((ls.flatMap wViaLayer ++ kw "End" :: T).length + 1) (by
+      have := flatMap_wViaLayer_length ls; simp only [List.length_append]; omega) h.2
+    have hkey : ∀ R, peekKey (ls.flatMap wViaLayer ++ kw "End" :: R) = some "Layer" ∨ peekKey (ls.flatMap wViaLayer ++ kw "End" :: R) = some "End" := by
+      intro R
+      cases ls with
+      | nil => right; exact peekKey_kw _ _ k_End
+      | cons a b => left; simp only [List.flatMap_cons, wViaLayer, List.append_assoc, List.cons_append]; exact peekKey_kw _ _ k_Layer
+    cases r with
+    | none =>
+      simp only [wViaData, opt, List.nil_append]
+      unfold viaDataP
+      have hk := hkey T
+      generalize ls.flatMap wViaLayer ++ kw "End" :: T = S at hl hk
+      rcases hk with hk | hk <;> simp [hk, hl]
+    | some d =>
+      simp only [optOk] at h
+      simp only [wViaData, opt, List.cons_append, List.nil_append]
+      generalize ls.flatMap wViaLayer ++ kw "End" :: T = S at hl
+      unfold viaDataP
+      simp [peekKey_kw "Resistance" _ k_Resistance, number_num d _ h.1, semi_semiTok, hl]
+
+def wViaToks (v : ViaDef) : List Tok :=
+  kw "Via" :: ident v.name :: ((if v.isDefault then [kw "Default"] else []) ++ (wViaData v.data ++ [kw "End", ident v.name]))
+
+theorem wVia_eq (v : ViaDef) : wVia v = wViaToks v := by
+  obtain ⟨n, isDef, d⟩ := v
+  cases d with
+  | fixed r ls => simp only [wVia, wViaToks, wViaData, List.append_assoc, List.cons_append, List.nil_append]; rfl
+  | generated g => simp [wVia, wViaToks, wViaData, wGenBody, wOrigin_def]
+
+def viaOk (v : ViaDef) : Bool := viaDataOk v.data
+
+theorem wViaData_key (d : ViaData) (R : List Tok) : ∃ k, peekKey (wViaData d ++ kw "End" :: R) = some k ∧ (k == "Default") = false := by
+  cases d with
+  | generated g => exact ⟨"ViaRule", peekKey_kw _ _ k_ViaRule, by decide⟩
+  | fixed r ls =>
+    cases r with
+    | some d => exact ⟨"Resistance", peekKey_kw _ _ k_Resistance, by decide⟩
+    | none =>
+      cases ls with
+      | nil => exact ⟨"End", peekKey_kw _ _ k_End, by decide⟩
+      | cons a b => exact ⟨"Layer", by simp only [wViaData, opt, List.nil_append, List.flatMap_cons, wViaLayer, List.append_assoc, List.cons_append]; exact peekKey_kw _ _ k_Layer, by decide⟩
+
+theorem viaDef_w (v : ViaDef) (T : List Tok) (h : viaOk v = true) : viaDef (wViaToks v ++ T) = some (v, T) := by
+  obtain ⟨n, isDef, d⟩ := v
+  simp only [viaOk] at h
+  have hd := viaDataP_w d (ident n :: T) h
+  obtain ⟨k, hk, hkd⟩ := wViaData_key d (ident n :: T)
+  simp only [wViaToks, List.cons_append, List.append_assoc, List.nil_append]
+  generalize wViaData d ++ kw "End" :: ident n :: T = S at hd hk
+  unfold viaDef
+  cases isDef with
+  | true =>
+    simp [expectKey_kw "Via" _ k_Via, getName_ident, peekKey_kw "Default" _ k_Default, hd, peekKey_kw "End" _ k_End, expectIdent]
+  | false =>
+    have hkd' : k ≠ "Default" := by simpa using hkd
+    simp [expectKey_kw "Via" _ k_Via, getName_ident, hk, hkd', hd, peekKey_kw "End" _ k_End, expectIdent]
+
+/-! ### property definitions -/
+theorem k_PropertyDefinitions : isKey "PropertyDefinitions" = true := by decide +kernel
+theorem k_String : isKey "String" = true := by decide +kernel
+theorem k_Real : isKey "Real" = true := by decide +kernel
+theorem k_Integer : isKey "Integer" = true := by decide +kernel
+theorem k_Range : isKey "Range" = true := by decide +kernel
+theorem t_PropObj : (lefEnums.lookup "LefPropertyDefinitionObjectType").isSome = true := by decide +kernel
+
+/-- the seven object types are also keywords, spelt the same, and the reader's dispatch list holds exactly them -/
+theorem propObj_table : (enumTable "LefPropertyDefinitionObjectType").all (fun p =>
+    LefEnum.parse keyTable p.2.toList == some p.1 && propDefObjects.contains p.1) = true := by decide +kernel
+
+theorem propObj_key (o : String) (r : List Tok) (h : isVariant "LefPropertyDefinitionObjectType" o = true) :
+    peekKey (en "LefPropertyDefinitionObjectType" o :: r) = some o ∧ propDefObjects.contains o = true := by
+  unfold isVariant at h
+  cases hs : toStr (enumTable "LefPropertyDefinitionObjectType") o with
+  | none => simp [hs] at h
+  | some s =>
+    have := List.all_eq_true.1 propObj_table (o, s) (toStr_mem _ _ _ hs)
+    simp only [Bool.and_eq_true, beq_iff_eq] at this
+    refine ⟨?_, this.2⟩
+    simp only [peekKey, en, kwText, hs, Option.getD_some]
+    exact this.1
+
+theorem propDefTail_w (v : Option Dec) (rg : Option (Dec × Dec)) (T : List Tok) (hv : optOk v decOk = true) (hr : optOk rg d2Ok = true) :
+    propDefTail (opt rg (fun r => [kw "Range", num r.1, num r.2]) ++ (opt v (fun d => [num d]) ++ semiTok :: T)) = some ((v, rg), T) := by
+  unfold propDefTail
+  cases rg with
+  | none =>
+    cases v with
+    | none => simp [opt, matchesTT, semiTok, semi, expectTT]
+    | some d =>
+      simp only [optOk] at hv
+      have : matchesTT .name (num d :: semiTok :: T) = false := by simp [matchesTT, num]
+      have h2 : matchesTT .number (num d :: semiTok :: T) = true := by simp [matchesTT, num]
+      simp [opt, this, h2, number_num d _ hv, semi_semiTok]
+  | some r =>
+    simp only [optOk, d2Ok, Bool.and_eq_true] at hr
+    have h1 : ∀ R, matchesTT .name (kw "Range" :: R) = true := by intro R; simp [matchesTT, kw]
+    cases v with
+    | none =>
+      have h2 : matchesTT .number (semiTok :: T) = false := by simp [matchesTT, semiTok]
+      simp [opt, h1, expectKey_kw "Range" _ k_Range, num2_w _ _ _ hr.1 hr.2, h2, semi_semiTok]
+    | some d =>
+      simp only [optOk] at hv
+      have h2 : matchesTT .number (num d :: semiTok :: T) = true := by simp [matchesTT, num]
+      simp [opt, h1, expectKey_kw "Range" _ k_Range, num2_w _ _ _ hr.1 hr.2, h2, number_num d _ hv, semi_semiTok]
+
+def pdOk : PropDef → Bool
+  | .str o _ _ => isVariant "LefPropertyDefinitionObjectType" o
+  | .real o _ v r => isVariant "LefPropertyDefinitionObjectType" o && optOk v decOk && optOk r d2Ok
+  | .int o _ v r => isVariant "LefPropertyDefinitionObjectType" o && optOk v decOk && optOk r d2Ok
+
+theorem propDefs_step (d : PropDef) (acc : List PropDef) (f : Nat) (R : List Tok) (h : pdOk d = true) :
+    propDefs (f + 1) acc (wPropDef d ++ R) = propDefs f (acc ++ [d]) R := by
+  cases d with
+  | str o n v =>
+    simp only [pdOk] at h
+    obtain ⟨hk, hc⟩ := propObj_key o (ident n :: kw "String" :: (opt v (fun s => [strTok s]) ++ semiTok :: R)) h
+    have hp := parseEnum_en "LefPropertyDefinitionObjectType" o (ident n :: kw "String" :: (opt v (fun s => [strTok s]) ++ semiTok :: R)) t_PropObj h
+    simp only [wPropDef, List.cons_append, List.nil_append, List.append_assoc]
+    rw [propDefs]
+    simp only [hk, hc, if_true, hp, Option.bind_some, getName_ident, getKey_kw "String" _ k_String, beq_self_eq_true]
+    cases v with
+    | none => simp [opt, matches_semi]
+    | some sv => simp [opt, matchesTT, strTok, expectTT, semi_semiTok]
+  | real o n v rg =>
+    simp only [pdOk, Bool.and_eq_true] at h
+    obtain ⟨⟨ho, hv⟩, hr⟩ := h
+    obtain ⟨hk, hc⟩ := propObj_key o (ident n :: kw "Real" :: (opt rg (fun r => [kw "Range", num r.1, num r.2]) ++ (opt v (fun d => [num d]) ++ semiTok :: R))) ho
+    have hp := parseEnum_en "LefPropertyDefinitionObjectType" o (ident n :: kw "Real" :: (opt rg (fun r => [kw "Range", num r.1, num r.2]) ++ (opt v (fun d => [num d]) ++ semiTok :: R))) t_PropObj ho
+    simp only [wPropDef, List.cons_append, List.nil_append, List.append_assoc]
+    rw [propDefs]
+    simp only [hk, hc, if_true, hp, Option.bind_some, getName_ident, getKey_kw "Real" _ k_Real, beq_self_eq_true,
+      show ("Real" == "String") = false by decide, Bool.false_eq_true, if_false, propDefTail_w v rg R hv hr]
+  | int o n v rg =>
+    simp only [pdOk, Bool.and_eq_true] at h
+    obtain ⟨⟨ho, hv⟩, hr⟩ := h
+    obtain ⟨hk, hc⟩ := propObj_key o (ident n :: kw "Integer" :: (opt rg (fun r => [kw "Range", num r.1, num r.2]) ++ (opt v (fun d => [num d]) ++ semiTok :: R))) ho
+    have hp := parseEnum_en "LefPropertyDefinitionObjectType" o (ident n :: kw "Integer" :: (opt rg (fun r => [kw "Range", num r.1, num r.2]) ++ (opt v (fun d => [num d]) ++ semiTok :: R))) t_PropObj ho
+    simp only [wPropDef, List.cons_append, List.nil_append, List.append_assoc]
+    rw [propDefs]
+    simp only [hk, hc, if_true, hp, Option.bind_some, getName_ident, getKey_kw "Integer" _ k_Integer, beq_self_eq_true,
+      show ("Integer" == "String") = false by decide, show ("Integer" == "Real") = false by decide, Bool.false_eq_true, if_false,
+      propDefTail_w v rg R hv hr]
+
+theorem propDefs_w (T : List Tok) : ∀ (ds : List PropDef) (acc : List PropDef) (f : Nat), ds.length + 1 ≤ f → ds.all pdOk = true →
+    propDefs f acc (ds.flatMap wPropDef ++ kw "End" :: kw "PropertyDefinitions" :: T) = some (acc ++ ds, T) := by
+  intro ds
+  induction ds with
+  | nil =>
+    intro acc f hf _
+    obtain ⟨g, rfl⟩ : ∃ g, f = g + 1 := ⟨f - 1, by simp at hf; omega⟩
+    rw [propDefs]
+    simp [peekKey_kw "End" _ k_End, show ¬ ("End" ∈ propDefObjects) by decide, expectKey_kw "PropertyDefinitions" _ k_PropertyDefinitions]
+  | cons d r ih =>
+    intro acc f hf hok
+    obtain ⟨g, rfl⟩ : ∃ g, f = g + 1 := ⟨f - 1, by simp at hf; omega⟩
+    simp only [List.all_cons, Bool.and_eq_true] at hok
+    simp only [List.flatMap_cons, List.append_assoc]
+    rw [propDefs_step d acc g _ hok.1, ih _ g (by simp at hf; omega) hok.2]
+    simp
+
 end L21.Lef
